@@ -40,6 +40,7 @@ impl Cfg {
             "mutual-deep" => "mutual-deep",
             "static" => "static",
             "fanout" => "fanout",
+            "sender-dropped" => "sender-dropped",
             _ => "none",
         };
         Cfg {
@@ -132,7 +133,63 @@ fn leaf_content(i: usize, g: u64) -> String {
 }
 
 /// The workload of one configuration (runs inside the child process).
+/// The source stops sending for good (it drops its `EventSender`) while threads keep calling
+/// `hot_reload`: every call must still return.
+fn child_sender_dropped(args: &Args, mut rep: Report, cfg: &Cfg) -> Report {
+    CTX.log_on.store(false, SeqCst);
+    #[cfg(not(miri))]
+    observer();
+    let base = Rng::new(args.seed).sub(fnv_str(&cfg.name()));
+    let reps = if cfg!(miri) { 2 } else { cfg.calls };
+    let per_caller = if cfg!(miri) { 3 } else { 40 };
+    for r in 0..reps {
+        let mem = Mem::new("c08sd", Hot::SenderToHarness);
+        mem.set_logging(false);
+        mem.write("x", "a", b"x0");
+        let cache = AssetCache::with_source(mem.clone());
+        let _ = cache.load::<Leaf<1, 0, true>>("x");
+        let sender = mem.take_sender();
+        let done_calls = AtomicU64::new(0);
+        let mut rr = base.sub(r as u64);
+        let drop_after = rr.below(cfg.callers * per_caller) as u64;
+        std::thread::scope(|s| {
+            for _ in 0..cfg.callers {
+                let (cache, done_calls) = (&cache, &done_calls);
+                s.spawn(move || {
+                    #[cfg(not(miri))]
+                    let tid = procfs::gettid();
+                    #[cfg(miri)]
+                    let tid = 0;
+                    for _ in 0..per_caller {
+                        IN_CALL_TIDS.lock().unwrap().push(tid);
+                        cache.hot_reload();
+                        IN_CALL_TIDS.lock().unwrap().retain(|t| *t != tid);
+                        COMPLETED.fetch_add(1, SeqCst);
+                        done_calls.fetch_add(1, SeqCst);
+                    }
+                });
+            }
+            while done_calls.load(SeqCst) < drop_after {
+                std::hint::spin_loop();
+            }
+            if let Some(sd) = &sender {
+                let _ = sd.send(OwnedDirEntry::File("x".into(), "a".into()));
+            }
+            drop(sender);
+        });
+        rep.count("sender_dropped_rounds", 1);
+    }
+    let completed = COMPLETED.load(SeqCst);
+    rep.evaluations += completed;
+    rep.count("hot_reload_calls_completed", completed);
+    rep.nontrivial(mix(fnv_str(&cfg.name()), completed));
+    rep
+}
+
 fn child(args: &Args, mut rep: Report, cfg: &Cfg) -> Report {
+    if cfg.shape == "sender-dropped" {
+        return child_sender_dropped(args, rep, cfg);
+    }
     let miri = cfg!(miri);
     let mem = Mem::new("c08", Hot::Yes);
     mem.set_logging(false);
@@ -390,6 +447,9 @@ pub fn configs(args: &Args) -> Vec<Cfg> {
     v.push(Cfg { callers: 4, loaders: 2, bursts: true, calls: (n(300, 3000) as f64 * args.scale) as usize + 10, shape: "static" });
     v.push(Cfg { callers: 1, loaders: 0, bursts: false, calls: (n(120, 1200) as f64 * args.scale) as usize + 8, shape: "fanout" });
     v.push(Cfg { callers: 3, loaders: 2, bursts: true, calls: (n(120, 1200) as f64 * args.scale) as usize + 8, shape: "fanout" });
+    // here `calls` is the number of caches created; 40 calls per caller and cache
+    v.push(Cfg { callers: 1, loaders: 0, bursts: false, calls: (n(150, 1500) as f64 * args.scale) as usize + 5, shape: "sender-dropped" });
+    v.push(Cfg { callers: 4, loaders: 0, bursts: false, calls: (n(150, 1500) as f64 * args.scale) as usize + 5, shape: "sender-dropped" });
     for shape in ["mutual", "self", "cycle3", "mutual-deep"] {
         v.push(Cfg { callers: 2, loaders: 1, bursts: false, calls: (n(600, 6000) as f64 * args.scale) as usize + 10, shape });
         if t {
